@@ -20,6 +20,7 @@ import (
 	"os"
 	"runtime"
 	"runtime/debug"
+	"strconv"
 	"strings"
 	"testing"
 	"time"
@@ -29,10 +30,21 @@ import (
 // scheduler hits a failing interleaving (or the budget is used up).
 func verifStressLoop(fn func()) {
 	runtime.GOMAXPROCS(8)
-	deadline := time.Now().Add(25 * time.Second)
+	budget, maxIters := 25*time.Second, 20000
+	if s := os.Getenv("VERIF_STRESS_SECS"); s != "" {
+		if n, err := strconv.Atoi(s); err == nil && n > 0 {
+			budget = time.Duration(n) * time.Second
+		}
+	}
+	if s := os.Getenv("VERIF_STRESS_ITERS"); s != "" {
+		if n, err := strconv.Atoi(s); err == nil && n > 0 {
+			maxIters = n
+		}
+	}
+	deadline := time.Now().Add(budget)
 	res := "REPLAY-PASSED"
 	iters := 0
-	for time.Now().Before(deadline) && iters < 20000 {
+	for time.Now().Before(deadline) && iters < maxIters {
 		iters++
 		verifPos = 0
 		ch := make(chan string, 1)
@@ -81,7 +93,7 @@ func TestVerifReplay(t *testing.T) {
 	if fn == nil {
 		t.Fatalf("VERIF-REPLAY-RESULT: REPLAY-ERROR: no harness %s", name)
 	}
-	if verifStress {
+	if verifStress || os.Getenv("VERIF_FORCE_STRESS") != "" {
 		verifStressLoop(fn)
 		return
 	}
@@ -293,6 +305,10 @@ func replayCexFileMode(scratch string, ov map[string]string, pi pkgInfo, cex str
 		sub = "."
 	}
 	env := append(os.Environ(), "GOFLAGS=-mod=mod", "GOPROXY=off", "GOSUMDB=off", "GOTOOLCHAIN=local", "VERIF_CEX="+cex)
+	if race && len(sites) > 0 {
+		// race detector + delay injection: repeat the harness within one process
+		env = append(env, "VERIF_FORCE_STRESS=1", "VERIF_STRESS_SECS=8", "VERIF_STRESS_ITERS=400")
+	}
 	bin := filepath.Join(scratch, pi.HarnessDir+variant+".test")
 	if race {
 		bin = filepath.Join(scratch, pi.HarnessDir+variant+".race.test")
